@@ -647,7 +647,7 @@ func TestVerif_C04_short(t *testing.T) {
 			c := &c04Case{layer: layer, list: s, tail: tail, seq: seq8, snap: c04Build(seq8, tail)}
 			e.configs(c, plan, c04Parts)
 			r.State()
-			if (idx == 3000 || idx == 9000) && tail == n-1 {
+			if (idx == 3000 || idx == 9000) && (tail == n-1 || !scaled) {
 				c.ci, c.q, c.sort, c.tac = 17, c04QPlain, true, true
 				r.Sample(e.detail(c, nil))
 			}
